@@ -69,6 +69,7 @@ func c12APIReport(t vh.Fataler, rec *vh.Rec, c regprocessor.C12Case, res regproc
 func TestVerif_C12_api(t *testing.T) {
 	rec := vh.NewRec("C12", "api", "the bidir / unidir cases (rapid-generated phantom file x registrar configuration x hostile request, plus the generation of the server's ClientConf) POSTed to the real HTTP handlers of an APIRegServer backed by a real RegProcessor; the client's view is the HTTP response body; same oracle; non-trivial as in bidir / unidir; distinct by whole case")
 	defer rec.Flush()
+	defer func() { rec.Extra("open_fds_at_end_sum_over_shards", regprocessor.C12OpenFDs()) }()
 	rec.Require("accepted", "refused", "forged-response", "param-override", "substituted", "station-v4", "station-v6", "front-end-moved-generation", "forwarded-source-not-bidirectional-and-registrar-changed-something")
 	e := regprocessor.C12NewEnv(t)
 	entry := c12APIEntry(e)
